@@ -217,8 +217,18 @@ class Flow:
                     else:
                         out |= {f"item({r})" for r in self.roots(s.value, s.node, depth - 1, _seen)}
                 elif s.kind == "for":
-                    base = self.roots(s.value, s.node, depth - 1, _seen)
-                    out |= {f"elem({r})" for r in base}
+                    src, path = s.value, s.index
+                    # for a, b in zip(xs, ys): b ← elem(ys); for i, x in enumerate(xs): x ← elem(xs)
+                    if path and isinstance(src, ast.Call) and isinstance(src.func, ast.Name):
+                        if src.func.id == "zip" and isinstance(path[0], int) and path[0] < len(src.args) and not any(isinstance(a, ast.Starred) for a in src.args):
+                            src, path = src.args[path[0]], path[1:]
+                        elif src.func.id == "enumerate" and path[0] == 1 and src.args:
+                            src, path = src.args[0], path[1:]
+                    base = self.roots(src, s.node, depth - 1, _seen)
+                    if path:
+                        out |= {f"item(elem({r}))" for r in base}
+                    else:
+                        out |= {f"elem({r})" for r in base}
                 elif s.kind == "with":
                     out |= {f"ctx({r})" for r in self.roots(s.value, s.node, depth - 1, _seen)}
                 elif s.kind in ("def",):
